@@ -17,6 +17,9 @@ from ..harness import Run, main_wrapper
 HOSTILE_TEXT = ["../escape", "../../up2", "/abs/path", "a/b/c", "..", "./dot", "C:\\win\\path", "x/../../y", "tag/../..", "name\x00nul", "~/home", "$(echo hi)", "${HOME}", "a;b", "..\\..\\w", "con", "-rf", "--flag"]
 
 
+HOOK = 'echo ran >> HOOK_LOG_ZQ; for f in *.md; do echo hooked >> "$f"; done'  # hooks are run through the shell
+
+
 def inside(path: str, root: str) -> bool:
     root = root.rstrip("/")
     return path == root or path.startswith(root + "/")
@@ -53,6 +56,14 @@ def main() -> int:
                 v["paths"].pop(r.choice(paths))
             v["paths"][f"/extra{k}"] = {"get": {"operationId": f"extra_op_{k}", "tags": [r.choice(["pets", "fresh-tag", "default"])], "responses": {"200": {"description": "ok"}}}}
             fam.append(v)
+        # degenerate members: no operations at all / no schemas at all (whole sub-packages come and go)
+        v = copy.deepcopy(base)
+        v["paths"] = {}
+        fam.append(v)
+        v = copy.deepcopy(base)
+        v["components"]["schemas"] = {}
+        v["paths"] = {"/only": {"get": {"operationId": "only_op", "tags": ["solo"], "responses": {"200": {"description": "ok"}}}}}
+        fam.append(v)
         families.append(fam)
     # ---- fresh trees per (family, doc, meta)
     fresh_jobs, fkey = [], {}
@@ -74,9 +85,13 @@ def main() -> int:
         meta = ["none", "poetry", "setup", "pdm"][(h // len(families)) % 4]
         titled = h % 5 == 0
         steps = []
+        hooked = h % 3 == 1
         for si in range(r.randint(1, 5)):
             di = r.randrange(len(families[fi]))
             st = {"doc": families[fi][di], "meta": meta, "overwrite": r.random() < 0.6, "via": (lambda u: "subprocess" if u < 0.06 else ("cli" if u < 0.32 else None))(r.random()), "_di": di}
+            if hooked:
+                # a configured post-hook that leaves a trace in its working directory each time it runs
+                st["cfg"] = {"post_hooks": [HOOK]}
             if not titled:
                 st["outdir_rel"] = "target/out"
             if si >= 1 and r.random() < 0.4:
@@ -168,9 +183,17 @@ def main() -> int:
             ev.count("convergence_checked")
             user = {p: h for p, h in inner_before.items() if ("USER_NOTES" in p or "my_extras/" in p)}
             for p, h in user.items():
-                if inner_after.get(p) != h:
+                if inner_after.get(p) != h and not (st.get("cfg") and "/" not in p and p.endswith(".md")):
                     vd.violation("user_file_touched", f"user file {p} changed or disappeared on overwrite", w)
             got = {p: h for p, h in inner_after.items() if p not in user}
+            if st.get("cfg"):
+                ev.count("commands_with_post_hook")
+                if "HOOK_LOG_ZQ" not in got:
+                    vd.violation("post_hook_not_run", "the configured post-hook left no trace in the output directory", w)
+                # what the hook itself writes (its log, lines appended to *.md at the top level) is not the generator's output
+                got = {p: h for p, h in got.items() if p != "HOOK_LOG_ZQ" and not ("/" not in p and p.endswith(".md"))}
+                want = {p: h for p, h in want.items() if not ("/" not in p and p.endswith(".md"))}
+                user = {p: h for p, h in user.items() if not ("/" not in p and p.endswith(".md"))}
             if got != want:
                 stale = sorted(set(got) - set(want))
                 missing = sorted(set(want) - set(got))
